@@ -40,6 +40,34 @@ def run(ctx):
         witness.run_witnesses(ctx, "C15")
 
 
+
+def _chain(e):
+    """('a', 'b') for self.a.b (through derefs and transparent calls); None if e is not a field path of the first parameter"""
+    e = deep_strip(e)
+    names = []
+    while e[0] == "field":
+        names.append(e[2])
+        e = deep_strip(e[1])
+    while e[0] == "deref":
+        e = deep_strip(e[1])
+    if e == ("param", 1) and names:
+        return tuple(reversed(names))
+    return None
+
+
+def _self_stores(f, chain):
+    """assignments to self.<chain>, directly or through a reborrow of self (a helper spliced in takes `&mut *self`)"""
+    def is_self(l_):
+        e_ = deep_strip(f.local_expr(l_))
+        alts_ = [a_ for a_ in (e_[1] if e_[0] == "phi" else (e_,)) if a_[0] != "partial"]     # stores through the reborrow are not values of it
+        return l_ == 1 or (bool(alts_) and all(deep_strip(a_) in (("param", 1), ("deref", ("param", 1))) for a_ in alts_))
+    out = []
+    for b, i, st in f.assigns():
+        names = tuple(e_["f"] for e_ in st["lhs"]["p"] if isinstance(e_, dict) and "f" in e_)
+        if names == tuple(chain) and is_self(st["lhs"]["l"]):
+            out.append((b, i, st))
+    return out
+
 def run_cfg(ctx, p, cfg):
     if "config_parsing" in p.meta.get("features", []):
         # "without panicking": the reloader installs what the lossy build kept; the install indexes the appender table by every
@@ -211,15 +239,11 @@ def run_cfg(ctx, p, cfg):
                 for x, y in ((a0, a1), (a1, a0)):
                     for ya in (y[1] if y[0] == "phi" else (y,)):
                         ya = deep_strip(ya)
-                        if is_read(x) and x[0] != "phi" and ya[0] == "field" and deep_strip(ya[1]) in (("param", 1), ("deref", ("param", 1))):
-                            fld = ya[2]
+                        if is_read(x) and x[0] != "phi" and _chain(ya) is not None:
+                            fld = ".".join(_chain(ya))
         r.require(fld is not None, "text-compared-with-the-remembered-one", fn=f, detail="the text read is compared with self.%s" % fld)
         if fld is not None:
-            def is_self(l_):
-                e_ = deep_strip(f.local_expr(l_))
-                alts_ = [a_ for a_ in (e_[1] if e_[0] == "phi" else (e_,)) if a_[0] != "partial"]     # stores through the reborrow are not values of it
-                return l_ == 1 or (bool(alts_) and all(deep_strip(a_) in (("param", 1), ("deref", ("param", 1))) for a_ in alts_))
-            sts = [(b, i, st) for b, i, st in f.assigns() if any(isinstance(e_, dict) and e_.get("f") == fld for e_ in st["lhs"]["p"]) and is_self(st["lhs"]["l"])]
+            sts = _self_stores(f, fld.split("."))
             good = [(b, i, st) for b, i, st in sts if is_read(f._rvalue(st["rv"], frozenset(), 30, b))]
             r.require(bool(good) and len(good) == len(sts), "remembered-text-is-what-was-read", fn=f, detail="assignments to self.%s: %d, all from the text just read" % (fld, len(sts)),
                       fail_detail="self.%s is %s: the comparison that detects a changed file runs against a stale text" % (fld, "never updated from the text read" if not good else "also assigned from something else"))
@@ -290,7 +314,12 @@ def run_cfg(ctx, p, cfg):
         r.require(any(x[0] == "call" and x[1] == PARSE for x in walk(cfgarg)), "applies-the-parsed-config", fn=g, site=sc.at, detail="set_config argument %s" % show(cfgarg, 6))
         r.require(deep_strip(sc.arg(0)) == ("field", ("param", 1), "handle") or any(x == ("param", 1) for x in walk(sc.arg(0))), "own-handle", fn=g, detail="handle %s" % show(sc.arg(0)))
         ptxt = pr.arg(1)
-        r.require(any(x[0] == "call" and x[1] == "config::file::read_config" for x in walk(ptxt)), "parses-the-new-text", fn=g, site=pr.at, detail="parsed text %s" % show(ptxt, 5))
+        okp = any(x[0] == "call" and x[1] == "config::file::read_config" for x in walk(ptxt))
+        if not okp and _chain(ptxt) is not None:
+            # the text is parsed out of the field it was just remembered in: some store of the text read into that field dominates the parse
+            okp = any(g.dominates(b_, pr.block) and any(x[0] == "call" and x[1] == "config::file::read_config" for x in walk(g._rvalue(st_["rv"], frozenset(), 30, b_)))
+                      for b_, i_, st_ in _self_stores(g, _chain(ptxt)))
+        r.require(okp, "parses-the-new-text", fn=g, site=pr.at, detail="parsed text %s" % show(ptxt, 5))
         # returns
         rets = q.ret_assignments(g)
         kinds = []
